@@ -147,9 +147,9 @@ func crashWord(c *explore.Ctx, base *explore.Base, sp crashSpace, word []explore
 					inflight = word[op-1].String()
 				}
 				viol = &explore.Violation{
-					Key:  fmt.Sprintf("base=%s cfg=%s word=%s pos=%d/%s", sp.Base, sp.Cfg, explore.WordString(w), im.Pos-from, im.Desc),
-					What: fmt.Sprintf("history [%s] from base %s/%s, crash inside %s after %d of its %d file-system calls (%s; next call: %s): %s", explore.WordString(w), sp.Base, sp.Cfg, inflight, im.Pos-from, to-from, im.Desc, opAt(log, im.Pos), msg),
-					Size: len(w)*1000 + (im.Pos - from),
+					Key:    fmt.Sprintf("base=%s cfg=%s word=%s pos=%d/%s", sp.Base, sp.Cfg, explore.WordString(w), im.Pos-from, im.Desc),
+					What:   fmt.Sprintf("history [%s] from base %s/%s, crash inside %s after %d of its %d file-system calls (%s; next call: %s): %s", explore.WordString(w), sp.Base, sp.Cfg, inflight, im.Pos-from, to-from, im.Desc, opAt(log, im.Pos), msg),
+					Size:   len(w)*1000 + (im.Pos - from),
 					Replay: map[string]interface{}{"kind": "crash03", "base": sp.Base, "cfg": sp.Cfg, "seed": 0, "word": opsJSON(w), "pos": im.Pos, "variant": im.Desc, "observed": msg},
 				}
 				return false
@@ -179,7 +179,7 @@ func init() {
 		Level: "fault_enumeration",
 		Rule: "for every word of length <= d over {Put(a),Put(b),Put(c),Delete(a),Delete(b),Compact,Sync,Reopen} (c collides with a in the full hash) from bases E/S2/CH/T: every file-system-call boundary inside the last operation (and inside the initial Open) " +
 			"and every 512-aligned tear of every write is turned into a disk image, reopened with the real Open and compared with {acked state, acked + in-flight op}; also == independent decoder replay; distinct_nontrivial = distinct disk images (content hash) recovered",
-		Assumptions: []string{"process-crash model of the property: returned calls fully applied, in-flight write applied up to a 512-aligned file offset, directory operations atomic", "depth bound as reported"},
+		Assumptions:   []string{"process-crash model of the property: returned calls fully applied, in-flight write applied up to a 512-aligned file offset, directory operations atomic", "depth bound as reported"},
 		QuickBudget:   100 * time.Second,
 		ThorBudget:    25 * time.Minute,
 		Run:           runC03,
